@@ -57,10 +57,12 @@ CHECKS["C03"] = dict(level="model_checking", design="4/C03, 6", engine="bmc", te
 CHECKS["C04"] = dict(level="model_checking", design="4/C04, 6", engine="bmc", technique=BMC,
    text="Plain FunctorPool with harness workers carrying ghost monitors and solver-chosen faults (begin() raises / functor raises): decided by z3 over all interleavings, n<=N and fault choices that begin() runs once before any item, no item after end(), until_all_ready() returns only after every begin() completed, a worker with quota k processes at most k chunks, every terminated worker has begin_calls == end_calls == 1 (final-state invariant, also evaluated on the real run in replays), and no worker is running after the pool context. FactoryFunctorPool (thorough): the same monitors on the initial and the REPLACED worker, decided for all schedules with at most 2 pre-emptions.",
    note="Trusted: as C01; monitors are ghost state (not schedulable steps). Bounds: 1 worker, n<=1, quota none/1 (quick); 2 workers, n<=2 with a context bound, bounded results queue (thorough).")
+CHECKS["C18"] = dict(level="model_checking", design="4/C18, 3.6", engine="bmc", technique=BMC + "; for C18 the replays run REAL os.fork()ed processes on a real file with every file operation released by a coordinator in schedule order",
+   text="Decided by z3 over all interleavings of the OS-level file operations (open, seek, readline, close, mmap) of a parent and up to three forked children and over all requested line indices (solver variables per read): every read of RandomLineAccessFile, MemoryMappedRandomLineAccessFile and MapAccessFile returns the requested line, no process raises, every execution is shorter than K steps. The repository's bytecode (__getitem__, _read_line, _file_seek, _read_next_line, reopen_if_needed, open, close) is executed symbolically per process; the operating system is a small state model (one read position per open file description; a forked copy shares the parent's description until the code itself calls open(); os.getpid() = process index).",
+   note="Trusted: z3, VM, and the OS model stated in the evidence (fork shares the description, open() creates a fresh one, mmap positions are private, no user-space read-ahead: worst case). Bounds: quick 1-3 children, <=2 reads per process, 3 lines, optional parent read before fork; thorough <=3 reads, 3 children x 2 reads under a context bound of 3 pre-emptions.")
 NOT_YET = {
  "C13": "escaping behaviour lives in the C extensions _json/_csv: CrossHair realises every value at that boundary (sampling, not this technique) and csv has no Python source to encode; the repository-owned record-file layering is exercised inside C11/C12 with an identity record class (DESIGN.md section 6)",
  "C14": "needs per-process attribute copies at fork, shared open-file descriptions, multiprocessing.Value/RLock/manager-list and file primitives in the Engine C bytecode VM; these primitives are not implemented, so the code cannot be encoded within reach (DESIGN.md section 6)",
- "C18": "needs fork semantics of file descriptions and pids (shared offsets between parent and children) in the Engine C VM; not implemented, code not encodable within reach (DESIGN.md section 6)",
 }
 def main():
     props = [json.loads(l)["id"] for l in open(os.path.join(ROOT, "properties.jsonl"))]
